@@ -458,7 +458,7 @@ META = {
                           "nifty.cl.operators.operator_adapter.OperatorAdapter.draw_sample",
                           "nifty.cl.operators.sum_operator.SumOperator.draw_sample",
                           "nifty.cl.operators.sampling_enabler.SamplingEnabler.{special_draw_sample,draw_sample}",
-                          "nifty.cl.minimization.conjugate_gradient.ConjugateGradient.__call__ (n <= 2)",
+                          "nifty.cl.minimization.conjugate_gradient.ConjugateGradient.__call__ (n = 1)",
                           "nifty.cl.field.Field.from_random, nifty.cl.sugar.from_random"],
     "bounds": {"pixels": "2 (3 for block-diagonal, 4 for partial-space diagonal)", "SamplingEnabler": "n = 1 (n = 2 does not finish and is not claimed)"},
     "stubs": shims_cl.STUBS[:8] + ["nifty.cl.random.Random.normal: returns mean + std*xi for harness-supplied white noise xi (symbolic, unit vectors or zero); "
